@@ -565,5 +565,71 @@ def lj_check(ctx):
     return rc
 
 
-REGISTRY = {"C13": lj_check, "C14": lattice_check, "C17": parser_check, "C01": crystal_check, "C02": crystal_check, "C04": crystal_check, "C15": crystal_check,
+def ljscore_check(ctx):
+    pid, tier, seed, t0 = ctx["pid"], ctx["tier"], ctx["seed"], ctx["t0"]
+    vp.build_harness()
+    th = tier == "thorough"
+    if ctx.get("replay"):
+        rp = json.load(open(ctx["replay"]))
+        d = os.path.join(vp.WORK, "C03_replay")
+        os.makedirs(d, exist_ok=True)
+        nd = os.path.join(d, "replay.ndjson")
+        n = 0
+        with open(nd, "w") as f:
+            for x in rp["failures"]:
+                if isinstance(x.get("state"), dict) and "sum1" in x["state"]:
+                    f.write(json.dumps(x["state"]) + "\n")
+                    n += 1
+        if n:
+            res = os.path.join(d, "result.json")
+            vp.pvh(["probe", "--in", nd, "--out", res])
+            if json.load(open(res))["C03"]["failures"]:
+                print("VIOLATION property=%s replay=%s" % (pid, ctx["replay"]))
+                return 1
+        vp.log("replay: grid failures re-run; random-state failures are reproduced by re-running the check with the same seed")
+        return 0
+    r = crystal_run("C03_probe", G7, "{Circle}",
+                    ax=[12, 20, 30, 44] + ([16, 26, 60] if th else []),
+                    b=[(0, 12), (0, 20), (0, 8), (9, 12), (12, 16), (6, 8), (0, 30)] + ([(15, 20), (5, 12), (0, 5)] if th else []),
+                    site=[-4, -3, -1, 0, 2, 3] + ([-2, 1] if th else []), orient=[1], invs=["ProbeOK", "EmitProbe"])
+    if r.get("error") or r["violations"]:
+        vp.log("TOOL-ERROR: TLC on Crystal (probe): %s %s" % (r.get("error"), r["violations"]))
+        vp.log(r["text_tail"][-1500:])
+        return 2
+    res = os.path.join(r["dir"], "result.json")
+    vp.pvh(["probe", "--in", r["ndjson"], "--out", res])
+    t = json.load(open(res))["C03"]
+    failures = [(f["what"], f.get("state")) for f in t["first_failures"]]
+    d = os.path.join(vp.WORK, "C03_sum")
+    os.makedirs(d, exist_ok=True)
+    sres = os.path.join(d, "ljsum.json")
+    vp.pvh(["ljsum", "--out", sres, "--tier", tier, "--seed", str(seed)], timeout=3000)
+    sm = json.load(open(sres))
+    for f in sm["first_failures"]:
+        failures.append((f["what"], f.get("state")))
+    with open(r["ndjson"]) as fh:
+        sample = json.loads(fh.readline())
+    if t["nontrivial"] == 0:
+        vp.log("TOOL-ERROR: no grid state has a pair inside the probe well")
+        return 2
+    coverage = {"states": r["distinct"], "transitions": r["generated"],
+                "traces_validated_against_impl": r["n_emitted"] + sm["states_checked"],
+                "samples": [sample] + sm["samples"][:2],
+                "grid_states": r["n_emitted"], "well_evaluations_with_pairs_in_range": t["nontrivial"],
+                "redescriptions_checked": t["redescriptions_checked"],
+                "random_states_vs_direct_lattice_sum": {k: v for k, v in sm.items() if k not in ("first_failures", "samples")},
+                "sets": r["defs"], "exhaustive": True,
+                "rule": "grid: every state of the probe enumeration (7 groups x cells incl. thin and sheared x sites), two wells (range 2.5 and 4); the real PotentialState with the probe shape must report -OrderedSum/(2N) exactly as TLC computes it, "
+                        "and TLC's re-descriptions (other orbit member, lattice shift, origin shift by half a lattice vector) must score the same with a real cut LJ particle. "
+                        "random: cut LJ shapes in cells over the whole declared range (heights down to 0.06), score() vs a direct lattice sum with as many shells as the cutoff needs"}
+    rc = finish(pid, tier, seed, t0, coverage, failures,
+                ["the probe pair energy depends on the displacement of the molecule centres only; the particle-pair structure inside a molecule is C13's business",
+                 "uncut potentials are not asserted beyond their truncated 3-shell sum (the property grants the convergence error)",
+                 "the direct lattice sum is evaluated by the harness in f64 with LJShape2::energy as the pair law; its pair-counting is the one TLC's OrderedSum validates on the grid"])
+    vp.log("[C03] LJ score: %d grid states (%d with pairs in range), %d re-descriptions, %d random states, %.0fs"
+           % (r["n_emitted"], t["nontrivial"], t["redescriptions_checked"], sm["states_checked"], time.time() - t0))
+    return rc
+
+
+REGISTRY = {"C03": ljscore_check, "C13": lj_check, "C14": lattice_check, "C17": parser_check, "C01": crystal_check, "C02": crystal_check, "C04": crystal_check, "C15": crystal_check,
             "C12": pairs_check, "C16": tables_check}
